@@ -3,7 +3,8 @@
     LitTokProofs.v (token loops).  Every statement is for all magnitudes / all token lists. *)
 From Dashu Require Import Base.Prelude Base.Words Int.IoSpec Int.IoModel Float.TextIoSpec Float.PartsConstModel Ratio.RatArithModel
   Macro.LitModel Macro.LitGenProofs Macro.LitTokProofs
-  Macro.LitLexModel Macro.LitLexProofs Macro.LitRefModel Macro.LitRefProofs Macro.LitSrcProofs.
+  Macro.LitLexModel Macro.LitLexProofs Macro.LitRefModel Macro.LitRefProofs Macro.LitSrcProofs Macro.LitTemplateProofs.
+From DashuGen Require Import LitTemplates.
 Open Scope Z_scope.
 
 (** from_le_bytes (to_le_bytes n) = n, and the byte string is the shortest one *)
@@ -265,3 +266,70 @@ Theorem C20_source_text_fdec_literal : forall s ts r, lex s = LexOk ts ->
   (fdec_literal ts r <-> TextIoSpec.parse_spec 10 (strip_ws s) = Some r).
 Proof. exact src_fdec_literal. Qed.
 Print Assumptions C20_source_text_fdec_literal.
+
+(* ================================================================================================================ *)
+(** * round 3: the code-generator templates, regenerated from macros/src/parse/{int,float,ratio}.rs on every run
+    (coq/gen/LitTemplates.v): for every flag combination and magnitude the row the guards select calls the constructor,
+    with the arguments, that the shape of the model stands for.  String literals: this section comes last. *)
+From Coq Require Import String.
+Local Open Scope string_scope.
+Local Open Scope Z_scope.
+
+Theorem C20_templates_int : forall signed_ static_ s mag,
+  select (env_int signed_ static_ (blen mag <=? nth 0 bitlen_thresholds_parse_integer 0)) "" tpl_parse_integer
+  = Some (int_calls signed_ (gen_int_asis static_ s mag)) /\
+  select (env_int signed_ static_ false) "data_defs" tpl_parse_integer
+  = (if static_ then Some ["generator quote_words(& big.to_le_bytes(), embedded)"] else None).
+Proof. exact tpl_int_matches_model. Qed.
+Print Assumptions C20_templates_int.
+
+Theorem C20_templates_bytes :
+  select [] "" tpl_quote_ubig = Some ["UBig::from_le_bytes(& BYTES)"] /\
+  select [] "bytes_tt" tpl_quote_ubig = Some ["generator quote_bytes(& bytes)"] /\
+  select [] "" tpl_quote_ibig = Some ["IBig::from_parts(#sign, #mag_tt)"] /\
+  select [] "mag_tt" tpl_quote_ibig = Some ["generator quote_ubig(embedded, mag)"].
+Proof. exact tpl_bytes_matches_model. Qed.
+Print Assumptions C20_templates_bytes.
+
+Theorem C20_templates_float : forall static_ s mag e p,
+  float_value_row static_ (blen mag <=? nth 0 bitlen_thresholds_parse_binary_float 0) tpl_parse_binary_float
+  = Some (fbin_calls (gen_float_asis static_ s mag e p)) /\
+  float_value_row static_ (blen mag <=? nth 0 bitlen_thresholds_parse_decimal_float 0) tpl_parse_decimal_float
+  = Some (fdec_calls (gen_float_asis static_ s mag e p)) /\
+  select (env_float true true) "" tpl_parse_binary_float = Some [] /\
+  select (env_float true true) "" tpl_parse_decimal_float = Some [] /\
+  select (env_float false false) "signif_tt" tpl_parse_binary_float = Some ["generator quote_ibig(embedded, IBig::from_parts(sign, mag))"] /\
+  select (env_float false false) "signif_tt" tpl_parse_decimal_float = Some ["generator quote_ibig(embedded, IBig::from_parts(sign, mag))"] /\
+  select (env_float true false) "data_defs" tpl_parse_binary_float = Some ["generator quote_words(& mag.to_le_bytes(), embedded)"] /\
+  select (env_float true false) "data_defs" tpl_parse_decimal_float = Some ["generator quote_words(& bytes, embedded)"].
+Proof. exact tpl_float_matches_model. Qed.
+Print Assumptions C20_templates_float.
+
+Theorem C20_templates_ratio : forall relaxed num den,
+  let th k := nth k bitlen_thresholds_parse_ratio 0 in
+  let nf := blen (Z.abs num) <=? th 2%nat in
+  let df := blen den <=? th 3%nat in
+  th 0%nat = 32 /\ th 1%nat = 32 /\
+  match gen_ratio_asis false num den with
+  | RC32 _ _ _ => select (env_ratio relaxed nf df) "" tpl_parse_ratio = Some ["#type_tt::from_parts_const(#sign, #num as _, #den as _)"]
+  | RParts n d =>
+    select (env_ratio relaxed nf df) "" tpl_parse_ratio = Some ["#type_tt::from_parts(#num_tt, #den_tt)"] /\
+    select (env_ratio relaxed nf df) "num_tt" tpl_parse_ratio = Some (part_calls true n) /\
+    select (env_ratio relaxed nf df) "den_tt" tpl_parse_ratio = Some (part_calls false d)
+  | RStatic _ _ _ => False
+  end /\
+  select (env_ratio relaxed nf df) "type_tt" tpl_parse_ratio = Some [] /\
+  select (env_ratio relaxed nf df) "" tpl_parse_static_ratio =
+    Some (if relaxed then ["Relaxed::from_static_words(#sign, NUM_DATA, DEN_DATA)"]
+          else ["mem::transmute(#ns::Relaxed::from_static_words(#sign, NUM_DATA, DEN_DATA))"; "Relaxed::from_static_words(#sign, NUM_DATA, DEN_DATA)"]) /\
+  select [] "num_data_defs" tpl_parse_static_ratio = Some ["generator quote_words(& num.to_le_bytes(), embedded)"] /\
+  select [] "den_data_defs" tpl_parse_static_ratio = Some ["generator quote_words(& den.to_le_bytes(), embedded)"].
+Proof. exact tpl_ratio_matches_model. Qed.
+Print Assumptions C20_templates_ratio.
+
+Theorem C20_templates_thresholds :
+  bitlen_thresholds_parse_integer = [32] /\ bitlen_thresholds_parse_binary_float = [32] /\ bitlen_thresholds_parse_decimal_float = [32] /\
+  bitlen_thresholds_parse_ratio = [32; 32; 32; 32] /\ bitlen_thresholds_parse_static_ratio = [] /\
+  bitlen_thresholds_quote_ubig = [] /\ bitlen_thresholds_quote_ibig = [].
+Proof. exact tpl_thresholds. Qed.
+Print Assumptions C20_templates_thresholds.
